@@ -209,3 +209,6 @@ func moduleHashes(p pgen.Prog) map[string]string {
 	}
 	return out
 }
+
+func sdslDiff(k sdsl.Kind, a, b map[string][]byte) string { return sdsl.DiffStores(k, a, b) }
+func byteSize(kv map[string][]byte) uint64                { return sdsl.ByteSize(kv) }
